@@ -483,6 +483,117 @@ def buildLattice (ps : List Provider) (lex : List Word) (buf : Buf) : Outcome (L
   | .err k => .err k
   | .panic w => .panic w
 
+/-! ## the builder with its provider calls recorded
+
+`build_lattice` decides per position (i) whether the provider list is run at all — by the CLASS of the
+character at the position (`cat_at_char(ch_off)` ∩ {NOOOVBOW, NOOOVBOW2}), not by `can_bow` —, (ii) in which
+order and with which `created` mask / node buffer every provider is called, (iii) whether the last provider
+is called once more.  The functions below are the same loop as `stepAt`/`buildFrom`/`buildLattice` but keep
+every `provide_oov` call (`Call`); `Proofs/Oov.lean` shows that forgetting the calls gives back
+`stepAt`/`buildLattice` (`stepAtT_nodes`, `buildLatticeT_nodes`).  The driver prints the calls, the harness
+observes them on the real builder through wrapped providers. -/
+
+/-- one `plugin.provide_oov(input, offset, other_words, result)` made by `provide_oovs` -/
+structure Call where
+  /-- position of the provider in `oov_providers` -/
+  idx : Nat
+  /-- `char_offset` -/
+  offset : Nat
+  /-- `other_words` -/
+  created : Nat
+  /-- `result.len()` on entry (`start_size`) -/
+  pre : Nat
+  /-- the nodes the provider pushed -/
+  out : List Node
+deriving Repr, DecidableEq
+
+/-- `provide_oovs` for the provider at index `i` -/
+def provideOovsT (i : Nat) (p : Provider) (buf : Buf) (offset : Nat) (st : Nat × List Node) :
+    Outcome ((Nat × List Node) × Call) :=
+  match provide p buf offset st.1 st.2 with
+  | .ok new => .ok ((addAll st.1 new, st.2 ++ new), ⟨i, offset, st.1, st.2.length, new⟩)
+  | .err k => .err k
+  | .panic w => .panic w
+
+/-- `for provider in self.oov_providers`; `i` = index of the head of `ps` in the configured list -/
+def provideAllT (ps : List Provider) (i : Nat) (buf : Buf) (offset : Nat) (st : Nat × List Node) :
+    Outcome ((Nat × List Node) × List Call) :=
+  match ps with
+  | [] => .ok (st, [])
+  | p :: rest =>
+    match provideOovsT i p buf offset st with
+    | .ok (st', c) =>
+      match provideAllT rest (i + 1) buf offset st' with
+      | .ok (st'', cs) => .ok (st'', c :: cs)
+      | .err k => .err k
+      | .panic w => .panic w
+    | .err k => .err k
+    | .panic w => .panic w
+
+/-- what happened at one position that has a previous node -/
+structure PosTrace where
+  pos : Nat
+  /-- the character's class allowed the provider loop (`!cat.intersects(NOOOVBOW | NOOOVBOW2)`) -/
+  asked : Bool
+  /-- dictionary words (after the `can_bow(e.end)` filter) -/
+  lexN : List Node
+  /-- the calls of the provider loop, in order -/
+  calls : List Call
+  /-- the extra call of the last provider when nothing had been created -/
+  fb : Option Call
+  /-- everything inserted into the lattice at this position -/
+  nodes : List Node
+deriving Repr, DecidableEq
+
+/-- `the character at `offset` lets the provider loop run` -/
+def asksProviders (cat : Nat) : Bool := cat &&& (NOOOVBOW ||| NOOOVBOW2) == 0
+
+/-- one iteration of the position loop, calls recorded -/
+def stepAtT (ps : List Provider) (lex : List Word) (buf : Buf) (offset : Nat) : Outcome PosTrace :=
+  match buf.cats[offset]? with
+  | none => .panic "index"
+  | some cat =>
+    let lexN := lexNodes lex buf offset
+    let st0 : Nat × List Node := (addAll 0 lexN, lexN)
+    let loop : Outcome ((Nat × List Node) × List Call) :=
+      if asksProviders cat then provideAllT ps 0 buf offset st0 else .ok (st0, [])
+    match loop with
+    | .err k => .err k
+    | .panic w => .panic w
+    | .ok (st1, calls) =>
+      if st1.1 = 0 then
+        match ps.getLast? with
+        | none => .panic "unwrap"
+        | some p =>
+          match provideOovsT (ps.length - 1) p buf offset st1 with
+          | .err k => .err k
+          | .panic w => .panic w
+          | .ok (st2, c) =>
+            if st2.1 = 0 then .err "Disconnect"
+            else .ok ⟨offset, asksProviders cat, lexN, calls, some c, st2.2⟩
+      else .ok ⟨offset, asksProviders cat, lexN, calls, none, st1.2⟩
+
+/-- the position loop, one `PosTrace` per position with a previous node -/
+def buildFromT (ps : List Provider) (lex : List Word) (buf : Buf) :
+    List Nat → List Node → List PosTrace → Outcome (List Node × List PosTrace)
+  | [], nodes, tr => .ok (nodes, tr)
+  | p :: rest, nodes, tr =>
+    if !reachable nodes p then buildFromT ps lex buf rest nodes tr
+    else match stepAtT ps lex buf p with
+      | .ok t => buildFromT ps lex buf rest (nodes ++ t.nodes) (tr ++ [t])
+      | .err k => .err k
+      | .panic w => .panic w
+
+def buildLatticeT (ps : List Provider) (lex : List Word) (buf : Buf) : Outcome (List Node × List PosTrace) :=
+  match buildFromT ps lex buf (List.range buf.chars.length) [] [] with
+  | .ok (nodes, tr) => if reachable nodes buf.chars.length then .ok (nodes, tr) else .err "Disconnect"
+  | .err k => .err k
+  | .panic w => .panic w
+
+/-- every `provide_oov` call of a run, in the order they were made -/
+def allCalls (tr : List PosTrace) : List Call :=
+  tr.flatMap (fun t => t.calls ++ t.fb.toList)
+
 /-! ## OOV word info (`resolve_best_path`, `WordId`, `WordInfo`, `Morpheme`) -/
 
 /-- `WordId::oov(pos_id)` = `WordId::new(0xF, pos_id)` -/
